@@ -18,7 +18,7 @@ PROPS = ["props/C10.v"]
 EXTRACTS = ["C10"]
 THEOREMS = ["C10_index_consistent_all_histories", "C10_one_node_per_project_all_histories", "C10_coherence_checker_sound",
             "C10_refuted_incoherent_after_entitled_history", "C10_refuted_internal_errors",
-            "C10_links_forward_coherent_all_histories", "C10_forward_coherence_is_not_vacuous"]
+            "C10_links_forward_coherent_all_histories", "C10_forward_coherence_is_not_vacuous", "C10_self_extras_reexpansion_returns"]
 RULE = ("operation histories (add input set / placeholder, solve a placeholder with a distribution the way the "
         "solver does - source = a requirer, reason = its stored edge -, loader-style adds, invalidate, remove) are "
         "generated adaptively against the real DistributionCollection over an alphabet of 4 projects x 2 versions "
